@@ -874,3 +874,105 @@ def check_extent(rule_prog, spec_dfa, atoms, left_word=False, at_begin=True, rig
         if len(viol) > 5:
             break
     return viol, n
+
+
+# ---------------------------------------------------------------------------
+# finite normalised word sets of keyword-like rules
+
+def enum_words(tree, limit=600):
+    """Set of words the pattern can spell, normalised the way keyword text is
+    compared: upper case, every whitespace run as one blank, anchors and
+    look-arounds dropped, a digit run as '0'.  None if the language is not a
+    small finite set under that normalisation."""
+    def seq_words(seq):
+        words = {''}
+        for op, av in seq:
+            w = item_words(op, av)
+            if w is None:
+                return None
+            words = {a + b for a in words for b in w}
+            if len(words) > limit:
+                return None
+        return words
+
+    def is_space_item(op, av):
+        return op is sc.IN and len(av) == 1 and av[0] == (sc.CATEGORY, sc.CATEGORY_SPACE)
+
+    def is_digit_item(op, av):
+        return op is sc.IN and len(av) == 1 and av[0] == (sc.CATEGORY, sc.CATEGORY_DIGIT)
+
+    def item_words(op, av):
+        if op is sc.LITERAL:
+            return {chr(av).upper()}
+        if op is sc.IN:
+            if is_space_item(op, av):
+                return {' '}
+            if is_digit_item(op, av):
+                return {'0'}
+            chars = set()
+            for o, a in av:
+                if o is sc.LITERAL:
+                    chars.add(chr(a).upper())
+                elif o is sc.RANGE and a[1] - a[0] < 8:
+                    chars |= {chr(c).upper() for c in range(a[0], a[1] + 1)}
+                else:
+                    return None
+            return chars if len(chars) <= 16 else None
+        if op is sc.BRANCH:
+            out = set()
+            for alt in av[1]:
+                w = seq_words(alt)
+                if w is None:
+                    return None
+                out |= w
+            return out
+        if op is sc.SUBPATTERN:
+            return seq_words(av[3])
+        if op in (sc.MAX_REPEAT, sc.MIN_REPEAT):
+            lo, hi, p = av
+            if len(p) == 1 and (is_space_item(*p[0]) or is_digit_item(*p[0])) and lo >= 1:
+                return {' '} if is_space_item(*p[0]) else {'0'}
+            if len(p) == 1 and is_space_item(*p[0]) and lo == 0:
+                return {'', ' '}
+            if hi is sc.MAXREPEAT or hi > 3:
+                return None
+            w = seq_words(p)
+            if w is None:
+                return None
+            out = set()
+            for k in range(lo, hi + 1):
+                cur = {''}
+                for _ in range(k):
+                    cur = {a + b for a in cur for b in w}
+                out |= cur
+            return out
+        if op in (sc.AT, sc.ASSERT, sc.ASSERT_NOT):
+            return {''}
+        return None
+    return seq_words(tree)
+
+
+def inner_separators(tree):
+    """How words are separated inside a multi-word pattern: list of
+    ('ws+', node) / ('single-ws', node) / ('literal-blank', node)"""
+    out = []
+
+    def rec(seq):
+        for op, av in seq:
+            if op is sc.LITERAL and chr(av) in ' \t':
+                out.append('literal-blank')
+            elif op is sc.IN and len(av) == 1 and av[0] == (sc.CATEGORY, sc.CATEGORY_SPACE):
+                out.append('single-ws')
+            elif op in (sc.MAX_REPEAT, sc.MIN_REPEAT):
+                lo, hi, p = av
+                if len(p) == 1 and p[0][0] is sc.IN and len(p[0][1]) == 1 and p[0][1][0] == (sc.CATEGORY, sc.CATEGORY_SPACE):
+                    out.append('ws+' if (lo >= 1 and hi is sc.MAXREPEAT) else 'ws*' if hi is sc.MAXREPEAT else 'single-ws')
+                else:
+                    rec(p)
+            elif op is sc.BRANCH:
+                for a in av[1]:
+                    rec(a)
+            elif op is sc.SUBPATTERN:
+                rec(av[3])
+    rec(tree)
+    return out
